@@ -418,6 +418,8 @@ class Walk:
     chain is certified (the link on q's side is known absent / known not to cover q)."""
 
     def __init__(self, p, table, start, q, start_covers=None):
+        if table is None:
+            table = "<no node examined>"     # the path never touched the arena: every fact about the trie is unexamined
         init = {}
         for k, v in p.inputs:
             if k.startswith("opt:" + table + "[") and k.rsplit(".", 1)[-1] in ("value", "left", "right"):
